@@ -69,8 +69,10 @@ def label_of(name):
 
 
 def make_object(spec, frame="base_link", ego=None, t=100):
-    """spec: {label, pos[3], size[3], yaw_cs:(c,s) | yaw, conf?, uuid, points?}; positions in the EGO frame.
-    frame == "map": the object is rendered in the map frame through the ego pose `ego` = {"t": [x,y,z], "cs": (c,s)}."""
+    """spec: {label, pos[3], size[3], yaw_cs:(c,s) | yaw, conf?, uuid, points?, vel?}; positions in the EGO frame.
+    frame == "map": the object is rendered in the map frame through the ego pose `ego` = {"t": [x,y,z], "cs": (c,s)}.
+    Optional (defaults keep the historical behaviour): ego["q"] = (w, x, y, z), a general unit quaternion used INSTEAD of the yaw-only
+    "cs" rotation (roll / pitch); spec["vel"] = a velocity tuple or None (key absent: (0, 0, 0))."""
     from perception_eval.common.object import DynamicObject
     from perception_eval.common.schema import FrameID
     from perception_eval.common.shape import Shape, ShapeType
@@ -78,7 +80,12 @@ def make_object(spec, frame="base_link", ego=None, t=100):
 
     yaw = math.atan2(spec["yaw_cs"][1], spec["yaw_cs"][0]) if "yaw_cs" in spec else spec.get("yaw", 0.0)
     x, y, z = spec["pos"]
-    if frame == "map":
+    orientation = None
+    if frame == "map" and ego.get("q") is not None:
+        qe = Quaternion(*[float(v) for v in ego["q"]])
+        x, y, z = (float(a) + float(b) for a, b in zip(qe.rotate((x, y, z)), ego["t"]))
+        orientation = qe * Quaternion(axis=(0.0, 0.0, 1.0), radians=yaw)
+    elif frame == "map":
         c, s = ego["cs"]
         x, y, z = c * x - s * y + ego["t"][0], s * x + c * y + ego["t"][1], z + ego["t"][2]
         yaw = yaw + math.atan2(s, c)
@@ -88,8 +95,9 @@ def make_object(spec, frame="base_link", ego=None, t=100):
             x, y, z = (int(v) for v in spec["map_int"])
     return DynamicObject(
         unix_time=t, frame_id=FrameID.MAP if frame == "map" else FrameID.BASE_LINK, position=(x, y, z),
-        orientation=Quaternion(axis=(0.0, 0.0, 1.0), radians=yaw),
-        shape=Shape(ShapeType.BOUNDING_BOX, tuple(spec["size"])), velocity=(0.0, 0.0, 0.0),
+        orientation=orientation if orientation is not None else Quaternion(axis=(0.0, 0.0, 1.0), radians=yaw),
+        shape=Shape(ShapeType.BOUNDING_BOX, tuple(spec["size"])),
+        velocity=(0.0, 0.0, 0.0) if "vel" not in spec else (None if spec["vel"] is None else tuple(spec["vel"])),
         semantic_score=spec.get("conf", 1.0), semantic_label=label_of(spec["label"]),
         pointcloud_num=spec.get("points", 10), uuid=spec.get("uuid"),
     )
@@ -103,6 +111,8 @@ def ego_transform(ego):
 
     if ego is None:
         return HomogeneousMatrix((0.0, 0.0, 0.0), Quaternion(), src=FrameID.BASE_LINK, dst=FrameID.MAP)
+    if ego.get("q") is not None:      # optional general ego rotation (roll / pitch), see make_object
+        return HomogeneousMatrix(tuple(ego["t"]), Quaternion(*[float(v) for v in ego["q"]]), src=FrameID.BASE_LINK, dst=FrameID.MAP)
     yaw = math.atan2(ego["cs"][1], ego["cs"][0])
     return HomogeneousMatrix(tuple(ego["t"]), Quaternion(axis=(0.0, 0.0, 1.0), radians=yaw), src=FrameID.BASE_LINK, dst=FrameID.MAP)
 
@@ -136,11 +146,15 @@ def make_estimates(fr, frame="base_link"):
     return [make_object(e, frame, fr.get("ego"), fr["t"]) for e in fr["ests"]]
 
 
-def gen_frame(rng, index, n_gt=None, with_ego=True, uuid_prefix="g"):
+def gen_frame(rng, index, n_gt=None, with_ego=True, uuid_prefix="g", fp_gt_prob=0.0):
+    """fp_gt_prob > 0 (optional, default off = the historical stream): that share of the ground truths carries the FP label
+    ("false_positive": a place where NO detection is expected); an estimate generated next to it gets an ordinary target label."""
     n_gt = rng.randint(0, 7) if n_gt is None else n_gt
     gts, ests = [], []
     for j in range(n_gt):
         lab = rng.choice(TARGETS if rng.random() < 0.85 else ALL_LABELS)
+        if fp_gt_prob > 0 and rng.random() < fp_gt_prob:
+            lab = "false_positive"
         pos = [rng.randint(-320, 320) / 8, rng.randint(-320, 320) / 8, rng.randint(-8, 8) / 8]
         gts.append({"label": lab, "pos": pos, "size": [rng.randint(4, 40) / 8 for _ in range(3)], "yaw_cs": rng.choice(CIRCLE),
                     "uuid": f"{uuid_prefix}{j}", "points": rng.choice([0, 1, 5, 50])})
@@ -148,6 +162,8 @@ def gen_frame(rng, index, n_gt=None, with_ego=True, uuid_prefix="g"):
         if rng.random() < 0.8:
             dx, dy = rng.choice([(0, 0), (0.25, 0), (0, 0.5), (0.75, 1), (1.5, 2), (0.375, 0.5), (3, 4), (0.5, -0.25)])
             lab = g["label"] if rng.random() < 0.85 else rng.choice(ALL_LABELS)
+            if lab == "false_positive":
+                lab = rng.choice(TARGETS)
             ests.append({"label": lab, "pos": [g["pos"][0] + dx, g["pos"][1] + dy, g["pos"][2]], "size": list(g["size"]),
                          "yaw_cs": g["yaw_cs"] if rng.random() < 0.7 else rng.choice(CIRCLE), "conf": None, "uuid": f"t{j}"})
     for j in range(rng.randint(0, 2)):
